@@ -84,6 +84,7 @@ class PropertyRun:
         self.by_kind = {}
         self.findings = _load_findings(pid)
         self.exhaustive = False
+        self.extended = []        # deviations from the extended specification (beyond the listed property)
 
     # ---------------------------------------------------------------- spec-level
     def model_check(self, module, cfg=None, expect="ok", **kw):
@@ -170,7 +171,12 @@ class PropertyRun:
 
     # ---------------------------------------------------------------- verdicts
     def add_violation(self, clause, meta, source="", event=None):
-        """Record a failing clause; returns True if it is explained by a known finding."""
+        """Record a failing clause; returns True if it is explained by a known finding.  Clauses named "EXT: ..." belong to the part of
+        the specification that goes beyond the listed property (CLI model, radio scaling laws): a deviation there is reported and
+        recorded in the evidence, but it is not a violation of the property this check is registered for."""
+        if str(clause).startswith("EXT:"):
+            self.extended.append({"clause": clause, "meta": meta, "source": source})
+            return True
         for f in self.findings:
             if f.get("status") == "known" and finding_matches(f, clause, meta):
                 self.known_hits[f["id"]] = self.known_hits.get(f["id"], 0) + 1
@@ -197,6 +203,7 @@ class PropertyRun:
             "models": self.models,
             "inconclusive": self.inconclusive,
             "known_findings_hit": self.known_hits,
+            "extended_spec_deviations": self.extended[:20],
             "exhaustive": self.exhaustive,
             "trusted_base": list(trusted),
             "repo": REPO,
@@ -214,6 +221,11 @@ class PropertyRun:
         }
         with open(os.path.join(EVIDENCE, f"{self.pid}.json"), "w") as f:
             json.dump(ev, f, indent=1, default=str)
+        seen_ext = set()
+        for x in self.extended:
+            if x["clause"] not in seen_ext:
+                seen_ext.add(x["clause"])
+                print(f"EXTENDED-SPEC-DEVIATION: ({self.pid} check, not a violation of {self.pid}) {x['clause']}: {json.dumps(x['meta'], default=str)[:240]}")
         for f in self.findings:
             if f.get("status") == "known" and self.known_hits.get(f["id"]):
                 print(f"KNOWN-FINDING: property={self.pid} {f['what']} (id={f['id']}, hits={self.known_hits[f['id']]})")
